@@ -528,11 +528,13 @@ func g1NonNilSide(r *Repo, rep *Report, b *Body, cond ast.Expr, op token.Token, 
 		case *ast.IfStmt:
 			side = withRest([]ast.Stmt{e})
 		default:
-			if !terminates(info, ifs.Body.List) {
+			// `if err == nil { … }` without else: when the error is not nil the body is skipped and what follows the if runs
+			// (whether or not the body, on the other outcome, falls through to it as well)
+			side = stmtsAfter(b, ifs)
+			if len(side) == 0 {
 				report("unrecognised", c, o, "is tested with == nil but both outcomes continue", cond.Pos())
 				return false
 			}
-			side = stmtsAfter(b, ifs)
 		}
 	}
 	return g1SideOK(b, side, v, c, o, cond, report)
@@ -560,6 +562,14 @@ func g1SideOK(b *Body, side []ast.Stmt, v types.Object, c *ast.CallExpr, o types
 					return ok && isClassifier(info, cc) && usesVar(info, cc, v)
 				}) {
 					cl = true
+				}
+				// if !classifier(err) { return …, err }: what follows is reached only for the recognised kind of error
+				if u, isNot := ast.Unparen(x.Cond).(*ast.UnaryExpr); isNot && u.Op == token.NOT && x.Else == nil && terminates(info, x.Body.List) {
+					if cc, isCall := ast.Unparen(u.X).(*ast.CallExpr); isCall && isClassifier(info, cc) && usesVar(info, cc, v) {
+						walk(x.Body.List, classified)
+						classified = true
+						continue
+					}
 				}
 				walk(x.Body.List, cl)
 				switch e := x.Else.(type) {
